@@ -1558,9 +1558,11 @@ def range_closure(sd: "SD", rule: str):
     isit = layout.item_pos(us[0])
     rf, _ = layout.unpack_call(eng, us[0])
     rwidths = [w for _, w in rf.items]
+    decoded_bits = {}
     for f, tm in dict(rv[1][0][2]).items():
         try:
             bits = _bits_of_reader(layout.r_descr(tm, isit), rwidths)
+            decoded_bits[f] = bits
         except AnalysisError:
             run.ob(rule, f"{ENTRY}:{f}-range", False, loc(parse), f"decoded {f} = {show(tm)[:80]}: value range not derivable")
             continue
@@ -1569,3 +1571,46 @@ def range_closure(sd: "SD", rule: str):
         ok = cap is not None and bits <= cap
         run.ob(rule, f"{ENTRY}:{f}-range", ok, loc(build),
                f"decoder yields up to {bits} bits for {f}; encoder accepts {cap if cap is not None else 'nothing (field not emitted)'} bits there")
+    # ... and the encoder's own refusals (explicit raise statements of build()) do not hit a decoded entry: every raising
+    # path's condition is evaluated over the box of decoded field ranges (corner and boundary points; the conditions are
+    # linear comparisons of the fields with constants) - a satisfiable one is an accepted input that cannot be encoded again
+    from ..absint import constants_compared, order_points
+    import itertools as _it
+    me = ("self", ENTRY)
+    et = enum_members(sd.prog, "header.SOMEIPSDEntryType")
+    raising = [q for q in sd.paths(build, ENTRY) if q.outcome[0] == "raise" and not any(e.raised is not None for e in q.events if e.kind == "call" and e.ext in ("struct.pack",))]
+    hit = None
+    n_eval = 0
+    for q in raising:
+        conds = [c for c, _, _, _ in q.conds]
+        used = sorted({x[2] for c in conds for x in subterms(c) if x[0] == "attr" and x[1] == me})
+        ints = [f for f in used if f in decoded_bits and f != "sd_type"]
+        other = [f for f in used if f not in ints]
+        if any(f not in ("sd_type", "options_1", "options_2") for f in other):
+            continue  # depends on something the decoder does not produce from bytes
+        consts = constants_compared(conds, lambda tm: True)
+        doms = [order_points(0, (1 << decoded_bits[f]) - 1, consts)[:12] + [(1 << decoded_bits[f]) - 1] for f in ints]
+        types = list(et.values()) if "sd_type" in other else [None]
+        for ty in types:
+            for combo in _it.product(*doms) if doms else [()]:
+                vals = dict(zip(ints, combo))
+                n_eval += 1
+
+                def leaf(tm, vals=vals, ty=ty):
+                    if tm[0] == "attr" and tm[1] == me:
+                        if tm[2] in vals:
+                            return vals[tm[2]]
+                        if tm[2] == "sd_type":
+                            return ty
+                        if tm[2] in ("options_1", "options_2"):
+                            return ()
+                    raise AnalysisError("other")
+                try:
+                    if all(bool(eval_term(c, leaf)) == v for c, v, _, _ in q.conds):
+                        hit = hit or (q, dict(vals))
+                except (AnalysisError, TypeError, ValueError):
+                    continue
+    run.abstract_cases += n_eval
+    run.ob(rule, f"{build.qual}:refuses-no-decoded-entry", hit is None, loc(build),
+           f"none of the {len(raising)} refusing path(s) of build() is reachable with field values the decoder produces ({n_eval} points)" if hit is None else
+           f"build() raises {hit[0].outcome[1]} for an entry the decoder accepts, e.g. {hit[1]}: a decoded message cannot be encoded again")
